@@ -409,7 +409,7 @@ pub fn run(outdir: &Path, tier: &str, seed: u64, shards: usize, replay: Option<S
     let cs = CaseSet {
         run_module: "RunC02".into(),
         cases,
-        checkers: ["corr_gen", "corr_static", "prop_c02", "known_ident_collision", "known_op_module_clash", "known_default_derive"].iter().map(|s| s.to_string()).collect(),
+        checkers: ["corr_gen", "corr_static", "prop_c02", "known_ident_collision", "known_op_module_clash", "known_default_derive", "known_default_value_rendering"].iter().map(|s| s.to_string()).collect(),
         extra_imports: vec!["Json".into(), "TypeExpr".into(), "Schema".into(), "Query".into(), "Attrs".into(), "Codegen".into(), "RunGen".into()],
         preludes: vec![],
     };
